@@ -300,6 +300,10 @@ func (g *generator) walkEnum(schema *openapi3.Schema) (ast.Type, error) {
 }
 
 func (g *generator) walkDisjunctions(schemaRefs []*openapi3.SchemaRef, discriminator string, mapping map[string]string) (ast.Type, error) {
+	if len(schemaRefs) == 0 {
+		return ast.Type{}, fmt.Errorf("anyOf/oneOf with no branches")
+	}
+
 	typeDefs := make([]ast.Type, 0, len(schemaRefs))
 	for _, schemaRef := range schemaRefs {
 		def, err := g.walkSchemaRef(schemaRef)
